@@ -173,6 +173,7 @@ fn metadata_shapes(ctx: &mut Ctx, case: u64) {
                 empty_metadata: false,
                 offset_style: 0,
                 raw_metadata: Some(raw.to_vec()),
+                dup_contents: false,
             };
             let f = gen::gen_foreign(&mut rng, &o);
             let mat = json!({"metadata": name, "codec": R::codec_name(codec)});
@@ -200,6 +201,7 @@ fn metadata_shapes(ctx: &mut Ctx, case: u64) {
             empty_metadata: false,
             offset_style: 0,
             raw_metadata: Some(b"{\"ok\":true}".to_vec()),
+            dup_contents: false,
         };
         let f = gen::gen_foreign(&mut rng, &o);
         if PMTiles::from_bytes(f.bytes).is_err() {
@@ -252,6 +254,7 @@ fn unknown_compression(ctx: &mut Ctx, case: u64) {
                 empty_metadata: empty_meta,
                 offset_style: 0,
                 raw_metadata: None,
+                dup_contents: false,
             };
             let mut f = gen::gen_foreign(&mut rng, &o);
             f.bytes[97] = 0;
